@@ -108,11 +108,16 @@ def run(chk, orch):
             # all representations of one workload run under the same hash seed (attribution rule: a difference that
             # is due to the hash seed alone is a C06 matter); threads/schedule/memory mode still vary
             hs = 0 if quick else chk.rng.choice([0, 1, 2, 3])
-            for repr_ in ("gtf", "gz", "db"):
+            for repr_ in ("gtf", "gz", "db", "refgz"):
                 for comp in (False, True):
+                    if repr_ == "refgz" and comp:
+                        continue
                     cell = common.random_cell(chk.rng) if (repr_, comp) != ("gtf", False) else dict(common.GOLDEN_CELL)
                     cell["hashseed"] = hs
                     o = dict(opts, gtf_repr=repr_, complete_genedb=comp)
+                    if repr_ == "refgz":
+                        # the reference genome as plain-gzip FASTA instead of plain FASTA
+                        o = dict(opts, gtf_repr="gtf", complete_genedb=False, ref_gz=True)
                     orch.submit(cell["hashseed"], "scenarios:pipeline", common.job_args(spec, o, cell), tag=("r", k, repr_, comp))
                     rep[(k, repr_, comp)] = (spec, o, cell)
         # ---------------- P: partitions
